@@ -30,6 +30,8 @@ class Base:
     def __init__(self, path):
         with I.Image(path) as img:
             self.bs = img.bs
+            self.groups = img.groups
+            self.default_bpg = img.sb.s_blocks_per_group == 8 * img.bs
             self.blocks_count = img.blocks_count
             self.is64 = img.is64
             self.has_csum = img.has_csum
